@@ -18,6 +18,7 @@ import (
 var c07Exprs = []string{
 	"`[3,1,2]`", "sort(`[3,1,2]`)", "reverse(`[3,1,2]`)", "`[[3,1],[2]]`[]", "`[3,1,2]`[*]", "`[3,1,2]`[1:]", "merge(`{\"a\":1}`, o)", "keys(`{\"b\":1,\"a\":2}`)",
 	"let $x = a, $y = b in [$x, $y]", "a[*].b[*].c", "a[?b && c].d", "{p: a, q: b, r: c}", "sort_by(arr, &k)", "group_by(arr, &g)", "map(&[@, k], arr)", "arr[1:]", "arr[::-1]", "to_string(@)",
+	"a[*].[$.b, d]", "map(&$.n, arr)", "arr[?k == $.n || g == $.b]", "map(&[$.s, @.k], arr)", "sort(`[3,1,2,7,5,4,6,0,9,8,11,10,13,12]`)",
 	"n + n * n", "sum(nums) / length(nums)", "arr[*].k | sort(@)", "o.* | sort(@)", "max_by(arr, &k).g", "not_null(missing, a, b)", "join(',', strs)", "split(s, ',')", "a == a && o == o", "[a, b][].b",
 }
 
